@@ -17,7 +17,7 @@ Clients ask, at a program point, whether the state entails a linear goal or is i
 """
 import re
 
-from . import expr as X, nullness
+from . import expr as X, nullness, classinfo
 from .lin import Lin, feasible, entails
 from .facts import walk
 
@@ -198,7 +198,7 @@ class GhostPos(object):
         for x in walk(fn.body):
             if x.get("k") == "assign" and x.get("op") == "=":
                 l, r = X.strip(x["ch"][0]), X.strip(x["ch"][1])
-                if l.get("k") == "ref" and r.get("k") == "call" and re.search(r"_item_new$", X.callee_name(r) or ""):
+                if l.get("k") == "ref" and r.get("k") == "call" and classinfo.is_node_ctor(fn.unit, X.callee_name(r) or ""):
                     self.fresh_nodes.add(l["d"])
                 if l.get("k") == "ref" and l.get("d") in self.ptrvars:
                     assigns.append((l["d"], x["ch"][1]))
@@ -210,7 +210,7 @@ class GhostPos(object):
         self.unknown_ptrs = set()
         for d, rhs in assigns:
             r_ = X.strip(rhs)
-            if r_ is not None and r_.get("k") == "call" and not re.search(r"_item_new$|_item_dup$", X.callee_name(r_) or ""):
+            if r_ is not None and r_.get("k") == "call" and not (re.search(r"_item_dup$", X.callee_name(r_) or "") or classinfo.is_node_ctor(fn.unit, X.callee_name(r_) or "")):
                 self.unknown_ptrs.add(d)
         # only locals that can point into self's chain carry a ghost position; nodes of other lists and fresh nodes do not
         cand = self.ptrvars
@@ -328,7 +328,7 @@ class GhostPos(object):
         s = X.strip(e)
         if s is None:
             return False
-        if s.get("k") == "call" and re.search(r"_item_new$|_item_dup$", X.callee_name(s) or ""):
+        if s.get("k") == "call" and (re.search(r"_item_dup$", X.callee_name(s) or "") or classinfo.is_node_ctor(self.fn.unit, X.callee_name(s) or "")):
             return True
         if s.get("k") == "ref" and s.get("d") in self.ptrvars:
             if entails(list(cons), Lin.sym("n%d" % s["d"]) - 1):
